@@ -265,7 +265,10 @@ def step (P : Params) (s : State) : Act → Option State
   | .tailTs i =>
       match s.phase i with
       | .tailPreTs k st =>
-          some { s with clock := s.clock + 1, phase := updF s.phase i (.tailLts k s.clock st) }
+          -- `rewind_validation_to` returns at once for an index beyond the block
+          if k < P.n then
+            some { s with clock := s.clock + 1, phase := updF s.phase i (.tailLts k s.clock st) }
+          else some { s with status := updF s.status i st, phase := updF s.phase i .idle }
       | _ => none
   | .tailLts i =>
       match s.phase i with
